@@ -25,6 +25,7 @@ structure Tup where
   udi : Expr := Expr.zero
   lu : Expr := Expr.zero
   srcClass : String := ""
+  r0 : String := ""                  -- the inner radius of the run (hex), for the interior boundary data
   srcExpr : Option Expr := none      -- the translated rhs_f of the class, when its body is inside the translator's grammar
   maxF : Float := 0.0
   maxDiff : Float := 0.0
@@ -80,7 +81,7 @@ def step (st : St) (line : String) : IO St := do
                      stats := { st.stats with cases := st.stats.cases + 1 },
                      t := { key := key, env := env, u := prob.u, al := prob.alpha, be := prob.beta, fx := prob.Fx, fy := prob.Fy, jrr := fnOf gc "dFx_dr", jtr := fnOf gc "dFy_dr",
                             jrt := fnOf gc "dFx_dt", jtt := fnOf gc "dFy_dt", ud := fnOf bdCls "u_D", udi := fnOf bdCls "u_D_Interior", lu := lu,
-                            srcClass := lookup TestCases.Gen.sourceTerm key,
+                            srcClass := lookup TestCases.Gen.sourceTerm key, r0 := (kv rest "R0").getD "",
                             srcExpr := (SourceTerms.Gen.table.find? (·.1 == lookup TestCases.Gen.sourceTerm key)).map (·.2) } }
   | "PT" :: r :: th :: rest =>
     let t := st.t
@@ -94,7 +95,10 @@ def step (st : St) (line : String) : IO St := do
     for (name, e, val) in pairs do
       stats ← check stats (close (ev e) val 1e-3) fun _ => s!"tuple {t.key}: translated expression of {name} evaluates to {ev e}, the compiled class returns {val} at r={rf} theta={tf}"
     let mut srcPts := st.srcPoints
-    match t.srcExpr with
+    -- near r = 0 the source terms are sums of large cancelling terms (~1/r): the double evaluation of the translated tree and the
+    -- compiled expression then differ by more than the relative allowance although both are the same formula; the translation is
+    -- compared away from the origin
+    match (if rf ≥ 1e-3 * t.env.getD 0 1.0 then t.srcExpr else none) with
     | some e =>
       srcPts := srcPts + 1
       stats ← check stats (close (ev e) (g "f") 1e-3) fun _ => s!"tuple {t.key}: translated expression of {t.srcClass}::rhs_f evaluates to {ev e}, the compiled class returns {g "f"} at r={rf} theta={tf}"
@@ -111,6 +115,9 @@ def step (st : St) (line : String) : IO St := do
       st := { st with oracleFails := st.oracleFails + 1 }
     if rf == t.env.getD 0 0.0 ∧ !(close (g "uD") (g "u") 1e-9) then
       IO.println s!"ORACLE C19 boundary data of tuple {t.key} differ from the exact solution on the outer boundary: {g "uD"} vs {g "u"} at theta={tf}"
+      st := { st with oracleFails := st.oracleFails + 1 }
+    if rf == hexF ((t.r0)) ∧ !(close (g "uDI") (g "u") 1e-9) then
+      IO.println s!"ORACLE C19 interior Dirichlet data (u_D_Interior) of tuple {t.key} differ from the exact solution on the inner boundary r = R0: {g "uDI"} vs {g "u"} at r={rf} theta={tf}"
       st := { st with oracleFails := st.oracleFails + 1 }
     -- (c) the shipped source term against the derived one
     let f := g "f"; let m := ev t.lu
